@@ -609,6 +609,7 @@ var (
 )
 
 func probeSetup() {
+	ref.CallArgumentDirectivesWithNull = probeCallArgumentDirectivesWithNull
 	es := NewExecutableSchema(Config{Resolvers: &resolverRoot{}})
 	pSchema = es.Schema()
 }
